@@ -333,12 +333,57 @@ def explore(run, src, exe, space, ndocs, limit, first=True):
     return docs, results, findings, dis, missing, st
 
 
-def confirm(src, exe, text, space, prop, fp, limit):
-    res = run_sharded("vt.harness.c05_impl", ["run", str(limit)], [{"id": 0, "text": text, "full": True}], src)
+def confirm(src, exe, text, space, prop, fp, limit, pre=None):
+    """does `text` show finding `fp` in a FRESH process (after cleaning the documents `pre` in that process first)?"""
+    res = run_sharded("vt.harness.c05_impl", ["run", str(limit)], [{"id": 0, "text": text, "full": True, "pre": list(pre or [])}], src)
     if 0 not in res:
         return False
     findings, _dis, _st = evaluate(exe, res, space)
     return any(x[0] == fp for x in findings[0][prop])
+
+
+def find_history(src, exe, text, space, prop, fp, limit, earlier):
+    """The finding does not show when `text` is cleaned in a fresh process: it depends on state left behind by documents
+    cleaned earlier in the same process (`earlier`, in order).  Returns a minimal-ish sub-list of `earlier` after which the
+    finding shows again, or None."""
+    if not earlier or not confirm(src, exe, text, space, prop, fp, limit, pre=earlier):
+        return None
+    # one earlier document is usually enough: try each alone (one fresh process per candidate, in parallel batches)
+    for lo in range(0, len(earlier), NSHARD):
+        cand = earlier[lo:lo + NSHARD]
+        res = {}
+        ths = []
+
+        def go(k, c):
+            res[k] = confirm(src, exe, text, space, prop, fp, limit, pre=[c])
+
+        for k, c in enumerate(cand):
+            th = threading.Thread(target=go, args=(k, c))
+            th.start()
+            ths.append(th)
+        for th in ths:
+            th.join()
+        for k, c in enumerate(cand):
+            if res.get(k):
+                return [c]
+    hist = list(earlier)        # otherwise: drop halves / single documents while the finding still shows
+    chunk = max(1, len(hist) // 2)
+    evals = 0
+    while chunk >= 1 and evals < 40:
+        i = 0
+        changed = False
+        while i < len(hist) and evals < 40:
+            c2 = hist[:i] + hist[i + chunk:]
+            evals += 1
+            if c2 and confirm(src, exe, text, space, prop, fp, limit, pre=c2):
+                hist = c2
+                changed = True
+            else:
+                i += chunk
+        if chunk == 1 and not changed:
+            break
+        chunk = max(1, chunk // 2) if chunk > 1 else (1 if changed else 0)
+    return hist
 
 
 def report_hits(run, src, exe, space, docs, findings, prop, limit, max_shrink=8):
@@ -361,14 +406,30 @@ def report_hits(run, src, exe, space, docs, findings, prop, limit, max_shrink=8)
             t = out.get(i)
             if t is not None and t != docs[g[2]] and confirm(src, exe, t, space, prop, fp, limit):
                 shrunk[fp] = t
+    nsh = max(1, min(NSHARD, len(docs)))
+    nhist = 0
     for fp, g, n in todo:
         text = shrunk.get(fp, docs[g[2]])
         if "timeout" in fp and fp not in shrunk and not confirm(src, exe, text, space, prop, fp, limit * 2):
             core.log("[c05] time-out not reproduced with twice the limit, dropped: %s" % fp)
             continue
+        rp = {"text": text, "space": space, "prop": prop, "fingerprint": fp, "minimised": fp in shrunk, "limit": limit}
+        extra = ""
+        if fp not in shrunk and "timeout" not in fp and len(docs) > 1 and nhist < 6 and not confirm(src, exe, text, space, prop, fp, limit):
+            # seen in the exploration but not in a fresh process: the outcome depends on documents cleaned before in the
+            # same process (shard k of run_sharded gets the documents k, k+n, k+2n, ... in that order)
+            nhist += 1
+            did = g[2]
+            earlier = [docs[j] for j in range(did % nsh, did, nsh)]
+            hist = find_history(src, exe, text, space, prop, fp, limit, earlier)
+            if hist is not None:
+                rp["pre"] = hist
+                extra = "; ONLY after cleaning %d other document(s) in the same process first, e.g. %r" % (len(hist), hist[0][:200])
+            else:
+                rp["not_reproduced_in_a_fresh_process"] = True
         run.hit(fingerprint="%s: %s" % (run.prop, fp),
-                what="%s  [%d documents of space %d; minimised wikitext: %r]" % (g[4], n, space, text[:300]),
-                replay={"text": text, "space": space, "prop": prop, "fingerprint": fp, "minimised": fp in shrunk, "limit": limit})
+                what="%s  [%d documents of space %d; minimised wikitext: %r%s]" % (g[4], n, space, text[:300], extra),
+                replay=rp)
     return groups
 
 
@@ -623,8 +684,8 @@ TRUSTED = [
 def check(run):
     run.rule = ("space 1: %d hand-written seeds + grammar-based adversarial wikitext (headings, lists, tables incl. nested/wide/"
                 "single-column, 55 html tags with style/class/id values that switch passes on, refs incl. named, galleries, math, "
-                "links, templates) followed by 0-4 random mutations, 10% numeric-attribute documents (every numeric attribute x number "
-                "spelling), 5% documents with 2..25 structurally equal offenders under one forbidden ancestor, plus the exhaustive sweep "
+                "links, templates) followed by 0-4 random mutations, 10%% numeric-attribute documents (every numeric attribute x number "
+                "spelling), 5%% documents with 2..25 structurally equal offenders under one forbidden ancestor, plus the exhaustive sweep "
                 "attribute read by the source x number spelling; space 2: documents of a recursive grammar of ordinary content "
                 "(unique words, or one repeated fragment) incl. link-only section bodies, multi-block table cells, preformatted blocks; "
                 "space 3: forbidden-nesting pairs / row-copying tables / adversarial documents with one fragment wrapped into 41..%d "
@@ -650,7 +711,9 @@ def replay(obj):
     if "text" not in rp:
         print(json.dumps(rp, indent=1))
         return 1
-    ok = confirm(src, exe, rp["text"], rp.get("space", 1), rp["prop"], rp["fingerprint"], rp.get("limit", 5))
+    ok = confirm(src, exe, rp["text"], rp.get("space", 1), rp["prop"], rp["fingerprint"], rp.get("limit", 5), pre=rp.get("pre"))
+    for t in rp.get("pre", []):
+        print("cleaned first, in the same process: %r" % t)
     print("wikitext: %r" % rp["text"])
     print("fingerprint: %s" % rp["fingerprint"])
     print("REPRODUCED" if ok else "not reproduced")
